@@ -49,16 +49,17 @@ ASSUMPTIONS = [
     'class for a dir-contents-of PATH that is not an existing directory (only "not PASS, nothing created" is demanded)',
     'rejection of a bad FILE-NAME may be SYNTAX_ERROR, VALIDATION_ERROR or HARD_ERROR (the manual says "must not")',
     'glob matching is case sensitive (Unix shell-style)',
+    '`path ~ REGEX` patterns of the pools assume that no component of the scratch directory is named T, d0, d or sub',
     'operands of && / || that are not plain primitives are parenthesised by the renderer (grammar layout is C06)',
 ]
 EXHAUSTIVE_NOTE = ('deterministic core (both tiers): all ordered pairs of the 16 FILE-SPEC forms and all triples of a '
-                   '10-form sub-pool; all ordered pairs of 10 `dir` instruction forms; every (min,max) in '
+                   '6-form sub-pool; all ordered pairs of 10 `dir` instruction forms; every (min,max) in '
                    '{none,0,1,2}^2 plus non-recursive on every directory of 4 fixed trees; the file-matcher pool x '
                    '{selection, prune, every, any} x 5 recursion options; prune pool x selection pool in both orders')
 MIN_OBS = {
-    'quick': {'evaluations': 3500, 'c15.tree_compared': 900, 'c15.audit_events_checked': 10000,
+    'quick': {'evaluations': 2500, 'c15.tree_compared': 900, 'c15.audit_events_checked': 10000,
               'c15.verdicts_compared': 18000, 'c15.hard_error_predictions_run': 250,
-              'c15.raw_fail_predictions_run': 1000, 'c15.rejections_checked': 200, 'classes': 1000},
+              'c15.raw_fail_predictions_run': 600, 'c15.rejections_checked': 200, 'classes': 1000},
     'thorough': {'evaluations': 22000, 'c15.tree_compared': 5000, 'c15.audit_events_checked': 60000,
                  'c15.verdicts_compared': 100000, 'c15.hard_error_predictions_run': 2000,
                  'c15.raw_fail_predictions_run': 6000, 'c15.rejections_checked': 200, 'classes': 2000},
@@ -66,7 +67,6 @@ MIN_OBS = {
 KNOWN = {}
 
 ROOT = '/@ROOT@/h'  # placeholder for the absolute path of the case's home directory; itself a valid absolute path
-DUMMY_ROOT = ROOT
 REJECT_IDENTS = ('SYNTAX_ERROR', 'VALIDATION_ERROR', 'HARD_ERROR')
 
 # =====================================================================================================
@@ -369,8 +369,8 @@ def core_match_cases():
             add('dc', 'T', ['sel', ['name', 'glob', name],
                             ['matches', True, [[name, None], [name, ['not', ['type', other]]],
                                                [name, ['const', True]], [name, ['not', ['type', 'symlink']]]]]])
-        for i in range(0, len(asserts), 24):
-            yield {'kind': 'match', 'tree': tree, 'tname': tname, 'asserts': asserts[i:i + 24]}
+        for i in range(0, len(asserts), 40):
+            yield {'kind': 'match', 'tree': tree, 'tname': tname, 'asserts': asserts[i:i + 40]}
 
 
 # ---- seeded: random trees and matchers ---------------------------------------------------------------------
@@ -822,7 +822,7 @@ def cases(tier, seed):
     for c in core_match_cases():
         yield c
     rng = common.rng_for(seed, ID, 'match')
-    n_match, n_pop = (800, 500) if tier == 'quick' else (8000, 5000)
+    n_match, n_pop = (500, 400) if tier == 'quick' else (8000, 5000)
     for c in seeded_match_cases(rng, n_match):
         yield c
     rng = common.rng_for(seed, ID, 'pop')
@@ -955,7 +955,6 @@ def check_assertions(ses, ctx, d, header_lines, asserts, world_of, viol, classes
             'detail': {'assertion': a, 'form': form, 'case_text': text_of(render_assert(a, form == 'negated')),
                        'expected': e, 'observed': r.brief()}})
 
-    first = None
     lines = []
     for a, e in batch:
         lines.extend(render_assert(a, flip=(e == 'FAIL')))
@@ -1012,7 +1011,6 @@ def run_match(case, ctx):
     files = {'T': ('dir',)}
     files.update(T.to_write_files(case['tree'], 'T/'))
     d = ses.new_case_dir(files)
-    before = None
     viol, classes = [], set()
     asserts = subst_root(case['asserts'], d)
     world = T.World(D({'T': case['tree']}), d)
@@ -1026,7 +1024,7 @@ def run_match(case, ctx):
     if case['tname'] in ('t1', 'rnd') and len(asserts) > 3 and first is not None and _want_sample('match'):
         exps = [expected_of(world, a) for a in asserts[:3]]
         res['sample'] = {'kind': 'match', 'tree': T.flatten(case['tree'], 'T/'),
-                         'assertions': [' '.join(x.strip() for x in render_assert(a)).replace(d, '<home>')
+                         'assertions': ['\n'.join(render_assert(a)).replace(d, '<home>')
                                         for a in asserts[:3]],
                          'expected_by_reference': exps,
                          'observed': 'case with all %d assertions in predicted polarity: %s' % (
